@@ -1,4 +1,5 @@
 """C09 - quantisers: monotone affine maps into the signed b-bit range, stated refresh schedule."""
+from fractions import Fraction
 from .common import *
 
 PROP_LEVEL['C09'] = 'proof'
@@ -222,3 +223,28 @@ def complex_quantizer_init(vc):
                   And(eq(G['stats_calc_period'], per), eq(G['stats_calc_num_samples'], ns), eq(G['num_bits'], b), eq(G['target_mean'], tm), eq(G['target_fwhm'], fw),
                       eq(G['target_std'], F['target_std']), eq(G['stats_calc_indices'], 0), G['stats_cache'][0] is None and G['stats_cache'][1] is None))
     vc.ensure('C09/ComplexQuantizer.__init__/post/own-fields', And(eq(F['stats_calc_period'], per), eq(F['stats_calc_num_samples'], ns), eq(F['num_bits'], b), F['quantizer_r'] is not F['quantizer_i']))
+
+
+@contract('C09', 'quantize_real_float_accuracy', functions=[Q + ':quantize_real'], mode='fp-relerr')
+def quantize_real_fp(vc):
+    """In floating point the rounded value must come from an argument that is accurate to a few ulps of |factor*(x - data_mean)| + |target_mean|:
+    an unclipped output lies within 1/2 + that bound of the exact affine value, for every data mean (also one that is huge compared with the
+    deviation - the subtraction x - data_mean must come first, fusing the mean into an offset cancels catastrophically)."""
+    b = (4, 8)[vc.choose(2, 'num_bits')]
+    x = symbolic_array('x', (1,))
+    m, ds, tm, ts = Real('data_mean'), Real('data_std'), Real('target_mean'), Real('target_std')
+    big = 10 ** 18
+    x0 = x.at((0,))
+    vc.assume(And(ds > Fraction(1, 10 ** 9), ds < 10 ** 9, ts > Fraction(1, 10 ** 3), ts < 10 ** 3, tm > -300, tm < 300, m > -big, m < big, x0 > -big, x0 < big))
+    with fp(vc):
+        out = vc.call(Q + ':quantize_real', x, target_mean=tm, target_std=ts, num_bits=b, data_mean=m, data_std=ds)
+    vc.cover('reachable')
+    vc.ensure('C09/quantize_real/fp/exc/none', out.ok)
+    if not out.ok:
+        return
+    q = out.value.at((0,))
+    ex = exact(lambda: (ts / ds) * (x0 - m) + tm)
+    lo, hi = -2 ** (b - 1), 2 ** (b - 1) - 1
+    bound = exact(lambda: Fraction(16, 2 ** 53) * (abs((ts / ds) * (x0 - m)) + abs(tm)))
+    vc.ensure('C09/quantize_real/fp/unclipped-output-within-half-a-level-of-the-exact-affine-value',
+              exact(lambda: Implies(And(ex >= lo + 1, ex <= hi - 1), And(q - ex <= Fraction(1, 2) + bound, ex - q <= Fraction(1, 2) + bound))))
